@@ -331,6 +331,12 @@ func (e *estSpec) clone() *estSpec {
 	}
 	return &r
 }
+func (e *estSpec) est() interface{} {
+	if e.sc != nil {
+		return e.sc
+	}
+	return e.ve
+}
 func (e *estSpec) params() func() interface{} {
 	return func() interface{} {
 		if e.sc != nil {
@@ -382,10 +388,14 @@ func buildDist(c *fcase) *frameRun {
 			f.call = e.estimateOnData
 		case "estimator.Clone": // work on the clone, the source keeps its parameters
 			cl := e.clone()
+			f.structural("source", e.est())
+			f.structural("clone", cl.est())
 			f.role("params", e.params())
 			f.call = cl.estimateOnData
 		case "estimator.CloneRev": // work on the source, the clone keeps its parameters
 			cl := e.clone()
+			f.structural("source", e.est())
+			f.structural("clone", cl.est())
 			f.role("params", cl.params())
 			f.call = e.estimateOnData
 		default:
@@ -462,6 +472,8 @@ func buildDist(c *fcase) *frameRun {
 		}
 	case "dist.Clone": // work on the clone, the source is unchanged
 		cl := p.clone()
+		f.structural("source", p.basic())
+		f.structural("clone", cl.basic())
 		arg := nudged(cl)
 		f.role("x", d.x)
 		f.role("params", paramsOf(p))
@@ -475,6 +487,8 @@ func buildDist(c *fcase) *frameRun {
 		}
 	case "dist.CloneRev": // work on the source, the clone is unchanged
 		cl := p.clone()
+		f.structural("source", p.basic())
+		f.structural("clone", cl.basic())
 		arg := nudged(p)
 		f.role("x", d.x)
 		f.role("params", paramsOf(cl))
